@@ -232,7 +232,12 @@ func (w *World) execNetOp(ctx context.Context, toks []string) (bool, error) {
 			return true, nil
 		}
 		before := w.net.SentCount()
-		t.deliverPeerEvent(ctx, &iface.EventPubSubJoin{Topic: w.dbAddr, Peer: w.net.ids[q]})
+		if w.net.coreMode {
+			// the adapter finds the join by polling: q disappears from p's view of the topic and comes back
+			w.net.rejoin(p, q, w.dbAddr)
+		} else {
+			t.deliverPeerEvent(ctx, &iface.EventPubSubJoin{Topic: w.dbAddr, Peer: w.net.ids[q]})
+		}
 		var m *Msg
 		deadline := time.Now().Add(2 * time.Second)
 		for m == nil && time.Now().Before(deadline) {
